@@ -92,6 +92,12 @@ Theorem C07_index_partition : forall ops,
   (forall d, In d (listed s) -> NoDup (map abs_path (ditems d))).
 Proof. exact index_partition. Qed.
 
+(* files with the same relative path and mtime below two shared directories are two different items (Python equality of
+   SharedItem includes the directory): no set operation can merge them *)
+Theorem C07_items_distinct : forall ops d d' x y, In d (listed (run ops)) -> In d' (listed (run ops)) ->
+  In x (ditems d) -> In y (ditems d') -> item_eq x y = true -> d = d'.
+Proof. exact items_distinct. Qed.
+
 (* a scan leaves in the scanned directory exactly the files of the disk that lie below it and not inside a nested shared
    directory, with their mtimes, named relative to the scanned directory *)
 Theorem C07_scan_exact : forall s p disk d, NoDup (map fst disk) -> find_listed p (listed s) = Some d ->
